@@ -54,6 +54,16 @@
 (* new object (the proposed repair).  Digests are ideal: the digest of an  *)
 (* index IS its content (a sequence of artifacts).                         *)
 (*                                                                         *)
+(* Design switches.  LockPut / LockDel / LockDelEarly / CowIndex select     *)
+(* between the code as it is (TRUE / FALSE / FALSE / FALSE) and the        *)
+(* repairs of findings C10-1 and C10-2 (all TRUE): LockDel makes           *)
+(* referrerDelete take muRefTag, LockDelEarly takes it before the          *)
+(* cacheRL.Delete (taking it only around the read-modify-write leaves a    *)
+(* stale cached list behind, see C10_mc config "late lock").  MixSameArt   *)
+(* lets a push and a delete of ONE artifact overlap (finding C10-3: not    *)
+(* serialisable by these locks).  ListConc lets the lister run while calls *)
+(* are in flight (finding C10-4, beyond the statement's quantifier).       *)
+(*                                                                         *)
 (* Deliberate deviations: cache expiry / pruning and the expiry of the     *)
 (* feature cache are not modelled (minutes; a history lasts milliseconds); *)
 (* descriptor slices are values (no aliasing of backing arrays: in-place   *)
